@@ -197,6 +197,7 @@ func (r *report) finish() int {
 	unwind := 0
 	rewrites, audits, byModel, folded := 0, 0, 0, 0
 	monChecks := 0
+	silent := 0
 	var auditFail []string
 	vacuous := []string{}
 	var samples []any
@@ -225,6 +226,7 @@ func (r *report) finish() int {
 		byModel += st.ByModel
 		folded += st.Folded
 		monChecks += st.MonitorChecks
+		silent += st.SilentWrites
 		auditFail = append(auditFail, st.AuditFail...)
 		for k, n := range st.Aborted {
 			if strings.HasPrefix(k, "unwind") {
@@ -293,6 +295,9 @@ func (r *report) finish() int {
 	for _, s := range r.inconclusive {
 		fmt.Println("INCONCLUSIVE:", s)
 	}
+	if silent > 0 {
+		fmt.Printf("NOTE: %d stores into operand memory always rewrite the value already there (no snapshot difference; a data race between concurrent callers)\n", silent)
+	}
 	if !complete {
 		fmt.Println("INCOMPLETE: a path/time cap was reached; the stated bound was not exhausted (see evidence)")
 	}
@@ -331,6 +336,7 @@ func (r *report) finish() int {
 		"samples":                       samples,
 		"evaluations":                   evals + folded + monChecks,
 		"monitored_stores_checked":      monChecks,
+		"same_value_stores_into_operands": silent,
 		"assertions_discharged_by_solver": evals,
 		"assertions_folded_by_path_equalities": folded,
 		"rewriting": map[string]any{"infeasible_by_rewriting": rewrites, "audited_with_cvc5": audits, "audit_mismatches": len(auditFail), "feasible_by_verified_model": byModel, "audit_every": r.cfg.AuditEvery},
